@@ -535,3 +535,96 @@ theorem trimOp_refines (U : UFacts) {s : KStr} (hw : s.WF) :
   exact h1
 
 end KotoVerif.Str
+
+namespace KotoVerif.Str
+open KotoVerif.Utf8
+
+/-- the reversed segmentation, re-reversed and concatenated, is the string -/
+theorem rsegs_flatten {g : Bytes → Nat} (hp : Progress g) : ∀ (fuel : Nat) (s : Bytes), s.length < fuel →
+    (rsegs g fuel s).reverse.flatten = s
+  | 0, _, h => by omega
+  | fuel + 1, s, h => by
+    simp only [rsegs]
+    split
+    · rename_i he
+      have : s = [] := by simpa using he
+      subst this; rfl
+    · rename_i hne
+      have hne' : s ≠ [] := by intro h; subst h; simp at hne
+      obtain ⟨h0, h1⟩ := hp s hne'
+      have hl : 0 < s.length := List.length_pos_iff.mpr hne'
+      simp only [List.reverse_cons, List.flatten_append, List.flatten_cons, List.flatten_nil, List.append_nil]
+      rw [rsegs_flatten hp fuel _ (by simp only [List.length_take]; omega)]
+      exact List.take_append_drop _ _
+
+/-- **`chars().reversed()` at the code level computes the reversed segmentation** (every `unwrap()` in
+`pop_back` succeeds), for every oracle `gLast` that makes progress and cuts at character boundaries -/
+theorem rcharsLoop_refines (U : UFacts) (hp : Progress U.gLast)
+    (hb : ∀ s : Bytes, s ≠ [] → isBoundary s (s.length - U.gLast s) = true) :
+    ∀ (fuel : Nat) (s : KStr), s.WF →
+      (rcharsLoop U fuel s).map (List.map KStr.bytes) = some (rsegs U.gLast fuel s.bytes)
+  | 0, _, _ => rfl
+  | fuel + 1, s, hw => by
+    have hlen := KStr.bytes_length hw
+    by_cases hemp : s.bytes.isEmpty = true
+    · have : popBack U s = none := by simp [popBack, hemp]
+      simp only [rcharsLoop, this, rsegs, hemp, if_true]; rfl
+    · have hne : s.bytes ≠ [] := by intro h; rw [h] at hemp; simp at hemp
+      have hemp' : s.bytes.isEmpty = false := by simpa using hemp
+      obtain ⟨h0, h1⟩ := hp s.bytes hne
+      have hbd := hb s.bytes hne
+      rw [hlen] at hbd h1
+      obtain ⟨r, p, hsp, hrb, hpb, _⟩ := splitAt_spec hw (g := s.len - U.gLast s.bytes) (by omega) hbd
+      -- the rest (first component) is well-formed too
+      have hrw : r.WF ∧ ∃ p', popBack U s = some (some (r, p')) ∧ p'.bytes = p.bytes := by
+        have hle := hw.le; have hhi := hw.hiLe
+        have hbuf : isBoundary s.buf (s.lo + (s.len - U.gLast s.bytes)) = true := by
+          rw [← KStr.boundary_iff hw (by omega)]; exact hbd
+        cases hform : s.form with
+        | full =>
+          have h0' := (hw.full hform).1
+          simp only [KStr.splitAt, hform] at hsp
+          rw [h0'] at hbuf; simp only [Nat.zero_add] at hbuf
+          rw [if_pos hbuf] at hsp
+          simp only [Option.some.injEq, Prod.mk.injEq] at hsp
+          obtain ⟨rfl, rfl⟩ := hsp
+          refine ⟨KStr.ofSlice_wf hw.valid (Nat.zero_le _) (by simp only [KStr.len] at *; omega)
+            (isBoundary_zero _) hbuf, _, ?_, rfl⟩
+          simp [popBack, hemp', hform, KStr.splitAt, hbuf]
+        | fullV =>
+          have h0' := (hw.fullV hform).1
+          simp only [KStr.splitAt, hform] at hsp
+          rw [h0'] at hbuf; simp only [Nat.zero_add] at hbuf
+          rw [if_pos hbuf] at hsp
+          simp only [Option.some.injEq, Prod.mk.injEq] at hsp
+          obtain ⟨rfl, rfl⟩ := hsp
+          refine ⟨KStr.ofSlice_wf hw.valid (Nat.zero_le _) (by simp only [KStr.len] at *; omega)
+            (isBoundary_zero _) hbuf, _, ?_, rfl⟩
+          simp [popBack, hemp', hform, KStr.splitAt, hbuf]
+        | slice =>
+          have h16 := hw.slice16 hform
+          have hc : isBoundary s.buf (s.lo + (s.len - U.gLast s.bytes)) = true ∧
+              s.lo + (s.len - U.gLast s.bytes) ≤ u16max := ⟨hbuf, by simp only [KStr.len]; omega⟩
+          simp only [KStr.splitAt, hform, if_pos hc, Option.some.injEq, Prod.mk.injEq] at hsp
+          obtain ⟨rfl, rfl⟩ := hsp
+          refine ⟨⟨by simp only [KStr.len]; omega, by simp only [KStr.len]; omega, hw.valid, hw.blo, hbuf,
+            (fun h => by cases h), (fun h => by cases h), (fun _ => by simp only [KStr.len]; omega)⟩, _, ?_, rfl⟩
+          simp [popBack, hemp', hform, KStr.splitAt, hc]
+        | large =>
+          simp only [KStr.splitAt, hform, if_pos hbuf, Option.some.injEq, Prod.mk.injEq] at hsp
+          obtain ⟨rfl, rfl⟩ := hsp
+          refine ⟨⟨by simp only [KStr.len]; omega, by simp only [KStr.len]; omega, hw.valid, hw.blo, hbuf,
+            (fun h => by cases h), (fun h => by cases h), (fun h => by cases h)⟩,
+            KStr.ofSlice s.buf (s.lo + (s.len - U.gLast s.bytes)) s.hi, ?_, rfl⟩
+          simp [popBack, hemp', hform, KStr.splitAt, hbuf]
+      obtain ⟨hrwf, p', hpop, hpb'⟩ := hrw
+      have ih := rcharsLoop_refines U hp hb fuel r hrwf
+      simp only [rcharsLoop, hpop, rsegs, hemp', Bool.false_eq_true, if_false]
+      cases hrec : rcharsLoop U fuel r with
+      | none => rw [hrec] at ih; cases ih
+      | some ts =>
+        rw [hrec] at ih
+        simp only [Option.map_some, Option.some.injEq] at ih
+        simp only [Option.map_some, List.map_cons, ih, hpb', hpb, hrb, hlen]
+
+end KotoVerif.Str
